@@ -2,6 +2,7 @@ import ApolloModel.Proofs.TypedDoc
 import ApolloModel.Proofs.TypedIter
 import ApolloModel.Proofs.TypedValid
 import ApolloModel.Proofs.TypedValid3
+import ApolloModel.Proofs.TypedVars5
 /-
 C18 — Executable documents are typed consistently with the schema.
 
@@ -13,6 +14,9 @@ All theorems hold for every schema, every document (valid or not, cyclic or not)
 -/
 namespace Apollo.C18
 open Apollo.Standalone Apollo.Typed
+
+/-- names are the numbers of Model/Standalone.lean (`Apollo.Name`, the strings of Model/ExecRules.lean, is in scope too) -/
+abbrev Name := Standalone.Name
 
 /-! ### field lookup, meta-fields included -/
 
@@ -215,5 +219,68 @@ example : dumpDoc (buildDocT wSchema wDoc) =
   decide +kernel
 example : typeField wSchema 23 nTypename = .ok metaTypename ∧ typeField wSchema 21 nTypename = .noSuchField ∧
     typeField wSchema 22 nSchema = .noSuchField ∧ typeField wSchema 20 nType = .ok metaType := by decide
+
+/-! ### variables: every used variable is declared (on the typed rules of Model/ExecRules.lean)
+
+`Model/ExecRules.lean` (C17) models the typed executable rules that `Model/Standalone.lean` leaves opaque — among them
+the variable part of `value_of_correct_type` after fixes 1d09582 / 9a745ed (UndefinedVariable at every depth: lists,
+input objects, list / object literals given to a custom scalar) and the per-operation walk with `validated_fragments`.
+C17 proves its SOUNDNESS (`operation_variables_in_scope_spec`); here is its COMPLETENESS: nothing reported ⇒ every
+variable use was met and is declared.  The theorems take as hypothesis the facts that the STRUCTURAL rules and the
+value-shape rules establish for a valid document (`DocOk`: fields, arguments and directives are defined, spreads name
+fragments, type conditions are composite, no fragment is on a spread cycle — proved of valid documents on the
+structural model above: `valid_document_wellformed` — and object literals name only defined input fields, each once,
+at positions of known type: the rules of family "values", which ExecRules does not model). -/
+
+end Apollo.C18
+namespace Apollo.C18
+open Apollo.ExecRules
+
+/-- **completeness of the variable part of `value_of_correct_type`**: a value of nesting depth ≤ k whose check
+    reports nothing has every variable it contains — at any depth, in lists, input-object literals and literals given
+    to a custom scalar — declared by the operation -/
+theorem value_variables_complete (s : RSchema) (vars : List RVarDef) (k : Nat) (ty : Apollo.Ty) (v : RVal)
+    (hd : RVal.depth v ≤ k) (hl : litOk s k ty v) (h : valueDiags s vars k ty v = []) :
+    ∀ n ∈ RVal.vars v, declared vars n = true :=
+  valueDiags_complete s vars k ty v hd hl h
+
+/-- **the walk of one operation is complete**: when `validate_operation` reports none of the typed diagnostics, every
+    variable the operation USES — in its own directives, in the directives / arguments of every field, spread and
+    inline fragment of its selection tree and, through spreads at any depth, in the directives and bodies of the
+    fragments it reaches (`UsesSels`; the fields of these trees are the fields `all_fields` yields, `all_fields_spec`)
+    — is declared by THAT operation.  In particular a fragment shared by several operations is checked against each of
+    them (each walk starts with an empty `validated_fragments`), and the fuel of the fragment recursion is sufficient. -/
+theorem valid_operation_variables_defined (s : RSchema) (doc : RBuilt) (o : ROp)
+    (hfr : ∀ f d, doc.findFrag f = some d → FragOk s doc d) (hdirs : dirsOk s o.dirs)
+    (t : String) (hroot : s.root o.ty = some t) (hsels : SelsOk s doc t o.sels) (h : opDiags s doc o = []) :
+    ∀ n, (n ∈ dirsVars o.dirs ∨ UsesSels doc o.sels n) → declared o.vars n = true :=
+  operation_variables_defined s doc o hfr hdirs t hroot hsels h
+
+/-- **valid_document_variables_defined** — for every schema and document: if the typed rules report nothing, every
+    variable used by every operation (through fragments, inside list / object / custom-scalar literals) is declared by
+    that operation. -/
+theorem valid_document_variables_defined (s : RSchema) (ast : RAst) (hok : DocOk s (build s ast))
+    (h : typedDiags s ast = []) :
+    ∀ o ∈ (build s ast).ops, ∀ n, (n ∈ dirsVars o.dirs ∨ UsesSels (build s ast) o.sels n) → declared o.vars n = true :=
+  document_variables_defined s ast hok h
+
+/-- the same for the quantity the harness computes with the real iterator (stream `c18.opvars`): the variables written in
+    the arguments and directives of the fields that `all_fields` yields for an operation are declared by it -/
+theorem valid_document_all_fields_variables_defined (s : RSchema) (ast : RAst) (hok : DocOk s (build s ast))
+    (h : typedDiags s ast = []) :
+    ∀ o ∈ (build s ast).ops, ∀ n ∈ opFieldVars (build s ast) o, declared o.vars n = true :=
+  fun o ho n hn => document_variables_defined s ast hok h o ho n (.inr (opFieldVars_uses _ o n hn))
+
+-- Non-vacuity (kernel-evaluated): `scalar S  type Query { f(x: S): Int }`,
+-- `query($v: Int) { f(x: {a: [$v, $w]}) }`: `$w`, inside a list inside an object given to a custom scalar, is reported
+def vSchema : RSchema :=
+  { types := [{ name := "Query", kind := .object [], fields := [("f", { args := [{ name := "x", ty := .named "S", hasDefault := false }], ty := .named "Int" })] },
+              { name := "S", kind := .scalar false, fields := [] }],
+    query := some "Query", mutation := none, subscription := none, dirs := [] }
+def vDoc (inner : List RVal) : RAst :=
+  [.op { ty := .query, name := none, vars := [{ name := "v", ty := .named "Int", default := .absent, dirs := [] }], dirs := [],
+         sels := .field "f" [] [{ name := "x", value := .obj [("a", .list inner)] }] .nil .nil }]
+example : typedDiags vSchema (vDoc [.var "v", .var "w"]) = [.undefinedVariable "w"] := by decide
+example : typedDiags vSchema (vDoc [.var "v", .lit]) = [] := by decide
 
 end Apollo.C18
